@@ -9,14 +9,92 @@ VERIF = os.path.dirname(os.path.dirname(os.path.abspath(__file__)))
 TECH = "contract-based deductive verification: VCs from the real AST (sidecar contracts), z3/cvc5"
 
 # property -> (level category, level text, note, technique, design section)
+ASSUME = ("Assumed (listed per run in evidence.coverage.trusted_base): contracts of numpy/scipy/matplotlib/pandas calls, "
+          "float arithmetic treated as real arithmetic (mode R), the symbolic interpreter's semantics of the modelled Python/NumPy subset, z3/cvc5 soundness. ")
+
 CHECKS = {
+    "C01": ("proof",
+            "IFORMContour._compute and ISORMContour._compute are verified against the abstract DistLike interface for every admissible conditional_on structure of 2-4 variables "
+            "(symbolic n_points, alpha): beta, shapes, the Rosenblatt clause (same row, declared column), radius, 2-D angle grid, first point = marginal quantile; ISORM's inner loop by invariant. "
+            "Bounded: the real models/NSphere are run on seeded cases (distinct directions for n_dim>=3).",
+            ASSUME + "NSphere's unit-norm rows are a contract (checked at run time only). DistLike laws (CDF(ICDF(p))=p, monotone) are refined by the family contracts of C05/C08.",
+            TECH, "DESIGN.md 3 C01"),
+    "C02": ("other",
+            "Deductive: cumsum_biggest_until (prefix/content/tight/order/last/warn, 1-D arrays, induction lemmas), cell_averaged_pdf (all 2-D/3-D structures, loop invariant), "
+            "cell_averaged_joint_pdf, _check_grid, _compute up to the erosion call (1-alpha, cell volume, fm, warning path, full structure). Bounded: real grids incl. N-D ravel, default limits.",
+            ASSUME + "Two paper lemmas about prefix masks (pigeonhole) are listed as trusted. N-D arrays reach cumsum_biggest_until through ravel/unravel_index (bounded only).",
+            TECH + " + bounded run-time contracts", "DESIGN.md 3 C02"),
+    "C03": ("other",
+            "Deductive: DirectSamplingContour._compute for symbolic sample, alpha, deg_step: while-loop invariant (offset i = (1-alpha)-quantile of the projection on normal i), normals advance by the step, "
+            "interior vertices lie on both neighbouring tangent lines (generic NRA lemma + syntactic identities), n = int(100/alpha), 2-D guard. The closing vertex is a recorded known finding (bounded check).",
+            ASSUME + "Declared pre-condition: the two intersected lines are not parallel.", TECH + " + bounded run-time contracts", "DESIGN.md 3 C03"),
+    "C04": ("other",
+            "Bounded only in this round: run-time contracts on AndContour/OrContour for seeded samples (ray, exceedance within allowed_error unless warned, closure points, drop-not-alter). "
+            "The loop-invariant proof of the searches is designed (DESIGN.md) but not built.",
+            "Everything is bounded: seeded samples, stated counts in the evidence.", "bounded run-time contracts (deductive part not built)", "DESIGN.md 3 C04"),
     "C05": ("proof",
-            "Every family's _get_scipy_parameters is proved (all None-patterns) to return the documented scipy slots at the effective "
-            "parameters; cdf/icdf/pdf are proved against that contract for scalar/list/array x, every single-parameter override and "
-            "vector parameters; the explicit-vs-constructed lemma and the norm-fit mean/std identities are discharged by z3.",
-            "Assumed: scipy.stats closed forms per family in (shapes, loc, scale) parameterisation (audited numerically, bounded), "
-            "float arithmetic treated as real arithmetic, the symbolic interpreter's model of the Python/NumPy subset.",
-            TECH, "DESIGN.md 3 C05"),
+            "Every family's _get_scipy_parameters is proved (all None-patterns) to return the documented scipy slots at the effective parameters; cdf/icdf/pdf are proved against that contract for "
+            "scalar/list/array x, every single-parameter override and vector parameters; explicit-vs-constructed and evaluate-fit-evaluate lemmas run the real constructors/methods; norm-fit mean/std identities by z3.",
+            ASSUME + "scipy.stats closed forms per family in (shapes, loc, scale) parameterisation are assumed (bounded numerical comparison in vf/rt/C05.py).", TECH, "DESIGN.md 3 C05"),
+    "C06": ("other",
+            "Deductive: GlobalHierarchicalModel.pdf factorisation for every structure of 1-4 variables and for a SYMBOLIC number of variables (loop invariant), non-finite rejection; the integrands/ranges handed to nquad by "
+            "cdf, marginal_pdf, marginal_cdf (argument reordering is a bijection, ranges on the right variable) for all 2-D/3-D structures; marginal_icdf (exact / Monte-Carlo n and column). Bounded: numerical agreement.",
+            ASSUME + "nquad computes the iterated integral; 'integrates to one' and cdf = integral of pdf then follow by Fubini (paper).", TECH + " + bounded run-time contracts", "DESIGN.md 3 C06"),
+    "C07": ("proof",
+            "draw_sample of every family (same parameter map as cdf, size, caller's random_state), _get_rvs_size, ConditionalDistribution.draw_sample and GlobalHierarchicalModel.draw_sample for every structure of 1-4 "
+            "variables: row k of variable i is the (conditional) quantile of the k-th uniform of ONE threaded generator given the same row's declared conditioning value; (n, n_dim) shape. Bounded: DKW tests, bit-for-bit seeds.",
+            ASSUME + "Ghost RNG model: scipy rvs = inverse-transform of the generator's uniforms; default_rng deterministic in its seed.", TECH, "DESIGN.md 3 C07"),
+    "C08": ("proof",
+            "ConditionalDistribution constructor bookkeeping, _get_param_values, and end-to-end lemmas pdf/cdf/icdf/draw_sample with every real family as template and every fixed/dependent partition "
+            "(real constructor + forwarder + family code): value k uses dep(g[k]) / the fixed value; DependenceFunction.__init__/__call__ incl. chained functions evaluated at the same g.",
+            ASSUME + "User dependence callables are element-wise and pure.", TECH, "DESIGN.md 3 C08"),
+    "C09": ("other",
+            "Deductive (wiring): GlobalHierarchicalModel.fit (own options per dimension, declared conditioning column), _split_in_intervals (slicer of the conditioning dimension, masks over input positions), "
+            "_check_and_fill_fit_desc, ConditionalDistribution.fit (copy of the template per interval, dependence inputs). Order invariance itself rests on C10's value-based masks plus scipy's permutation invariance: bounded.",
+            ASSUME + "scipy fit / curve_fit invariant under permutation of their data up to optimiser tolerance (bounded).", TECH + " + bounded run-time contracts", "DESIGN.md 3 C09"),
+    "C10": ("other",
+            "Deductive in exact arithmetic (mode R): _drop_too_small_intervals for a symbolic number of intervals (loop invariant, induction lemma), Width/NumberOfIntervals _slice (aligned, value-based, boundaries, references, "
+            "never-two / never-none lemmas), PointsPerInterval masks over input positions (no remainder), slice_ (RuntimeError), __init__ options. Floating-point edge coincidences: exhaustive lattice run (bounded).",
+            ASSUME + "mode R cannot see float rounding on interval edges; that clause is decided by vf/rt/C10.py only (exhaustive over the stated lattice).", TECH + " + exhaustive bounded lattice", "DESIGN.md 3 C10"),
+    "C11": ("proof",
+            "Constructors of all families (every fixed subset), _fit_mle (keywords scipy accepts, fixed slots unchanged, unpack = inverse of pack, start values), EW _fit_lsq fixed-delta / unsupported subsets, "
+            "ConditionalDistribution fixed parameters constant in g.",
+            ASSUME + "scipy fit contract: accepted fixing keywords, fixed slots returned unchanged.", TECH, "DESIGN.md 3 C11"),
+    "C12": ("other",
+            "Optimality is a numerical property of scipy's optimisers: bounded run-time contracts only (log-likelihood vs start/generating, equivariance), with recorded known findings. "
+            "Deductive part: start values forwarded, data passed unchanged, evaluate-after-fit uses exactly scipy's estimate (lemma.fit_eval_roundtrip).",
+            ASSUME + "scipy fit does not lose likelihood / is equivariant: NOT assumed - bounded check.", "bounded run-time contracts + small deductive lemma", "DESIGN.md 3 C12"),
+    "C13": ("other",
+            "Deductive: _estimate_alpha_beta satisfies the weighted normal equations for every positive weight vector (syntactic identities + generic NRA lemma), zero filtering; _fit_lsq: sorted data, plotting positions, "
+            "every weight specification aligned with the sorted data, fixed/free delta wiring, rejections. Bounded: numerical minimiser comparison; one known finding (runaway delta).",
+            ASSUME + "fmin returns a local minimiser (bounded check; known finding). Declared pre-conditions: positive data/weights, non-degenerate regression.", TECH + " + bounded run-time contracts", "DESIGN.md 3 C13"),
+    "C14": ("proof",
+            "convert_bounds (all None-patterns, 1-4 parameters), fit_function / fit_constrained_function forwarding incl. constraints and objective, DependenceFunction._fit write-back and notification, and the "
+            "fit-order protocol on every DAG shape with <= 3 functions x every fit order x re-fit (102 histories, real __init__/fit/_fit/register/callback).",
+            ASSUME + "Optimiser contracts (result inside bounds/constraints, local minimiser, not worse than start) are assumed; optimality itself is bounded.", TECH, "DESIGN.md 3 C14"),
+    "C15": ("other",
+            "Deductive: the region handed to the erosion and the full 3^n structure (hdc.compute.region). The boundary-cell characterisation, labelling and the point sorter are checked by bounded run-time contracts on the real code.",
+            ASSUME + "ndimage / networkx / sklearn behaviour is exercised, not modelled.", "bounded run-time contracts + small deductive part", "DESIGN.md 3 C15"),
+    "C16": ("other",
+            "Deductive: inverse/transform round trips of all shipped transformation pairs and of the predefined triples, Jacobian = |det| by symbolic differentiation of the real _transform term, TransformedModel.pdf / draw_sample wiring "
+            "incl. seeding by model.random_state. Monte-Carlo conditionals: bounded (DKW).",
+            ASSUME + "Statistical agreement and tail coverage of the rejection sampler are bounded checks.", TECH + " + bounded run-time contracts", "DESIGN.md 3 C16"),
+    "C17": ("other",
+            "Deductive: calculate_design_conditions against the contract of intersection (closed polygon, probe line spans the polygon, omitted iff no crossing, requested abscissa, top ordinate, swap_axis). "
+            "intersection itself (strided assembly): bounded run-time contracts.",
+            ASSUME + "intersection returns the crossing points (bounded check on random polylines).", TECH + " + bounded run-time contracts", "DESIGN.md 3 C17"),
+    "C18": ("proof",
+            "One raises-obligation per malformation class x position for 1-4 dimensional descriptions (+pairs): model construction, ConditionalDistribution, fit descriptions, data dimension, HDC grid, slicer options / references, "
+            "EW weight keywords, 2-D guards, non-finite points; well-formed inputs establish well_formed(model).",
+            ASSUME, TECH, "DESIGN.md 3 C18"),
+    "C19": ("other",
+            "Deductive frame clauses on every evaluation contract (no attribute of model/distribution written, caller's arrays untouched), template untouched by ConditionalDistribution.fit, "
+            "predefined getters share no mutable object between calls. Interleavings: bounded run-time snapshots.",
+            ASSUME, TECH + " + bounded run-time contracts", "DESIGN.md 3 C19"),
+    "C20": ("other",
+            "Deductive with output calls as ghost events: save_contour_coordinates (path, header, format, data), plot_2D_contour (closed polyline in order, swap_axis, scatter of sample / design conditions for None/True/array), "
+            "read_ec_benchmark_dataset. Other plot functions and byte-level round trips: bounded.",
+            ASSUME + "np.savetxt, matplotlib and pandas do what their arguments say.", TECH + " + bounded run-time contracts", "DESIGN.md 3 C20"),
 }
 
 NOT_YET = "check not built yet in this round (work in progress); see DESIGN.md section 3"
